@@ -56,6 +56,9 @@ type scenario struct {
 	Extra   int      `json:"extra,omitempty"`
 	G       int      `json:"g,omitempty"`
 	Seed    uint64   `json:"seed,omitempty"`
+	Fails   []int    `json:"fails,omitempty"` // fail: processors whose ForceFlush / Shutdown report an error
+	Reg     int      `json:"reg,omitempty"`   // reader / rstorm: providers the reader was handed to
+	BudgetMs int     `json:"budget_ms,omitempty"` // lstorm / mstorm: stop after this long (at least 20 rounds)
 }
 
 type callJ struct {
@@ -82,6 +85,7 @@ type roundJ struct {
 
 type resultJ struct {
 	Rounds    []roundJ `json:"rounds,omitempty"`
+	RoundsDone int     `json:"rounds_done,omitempty"`
 	Obs       []obsJ `json:"obs"`
 	Panic     string `json:"panic,omitempty"`
 	Shutdowns []int  `json:"shutdowns,omitempty"`
@@ -251,7 +255,8 @@ func childTrace(sc scenario) resultJ {
 		opts = append(opts, sdktrace.WithSpanProcessor(procs[m]))
 	}
 	tp := sdktrace.NewTracerProvider(opts...)
-	retained := tp.Tracer("retained")
+	rv := len(sc.Ops) % 8 // the retained handle's options (every TracerOption, in rotating combinations)
+	retained := tp.Tracer("retained", tracerOpts(rv)...)
 	var spans []trace.Span
 	var res resultJ
 	rec.take()
@@ -266,11 +271,14 @@ func childTrace(sc scenario) resultJ {
 		case "start":
 			tr := retained
 			if o.B {
-				name := fmt.Sprintf("fresh%d", i)
-				if o.S {
-					name = "retained" // the scope whose tracer was created (and cached) before
+				name, v := fmt.Sprintf("fresh%d", i), i%8
+				if i%5 == 0 {
+					name = "" // the default tracer name
 				}
-				tr = tp.Tracer(name)
+				if o.S {
+					name, v = "retained", rv // the scope whose tracer was created (and cached) before
+				}
+				tr = tp.Tracer(name, tracerOpts(v)...)
 			}
 			_, sp := tr.Start(context.Background(), "s")
 			ob.Flag = sp.IsRecording()
@@ -337,7 +345,8 @@ func childMetric(sc scenario) resultJ {
 		opts = append(opts, sdkmetric.WithReader(r))
 	}
 	mp := sdkmetric.NewMeterProvider(opts...)
-	retained, _ := mp.Meter("retained").Int64Counter("c")
+	rv := len(sc.Ops) % 8
+	retained, _ := mp.Meter("retained", meterOpts(rv)...).Int64Counter("c")
 	var res resultJ
 	rec.take()
 	for i, o := range sc.Ops {
@@ -347,11 +356,14 @@ func childMetric(sc scenario) resultJ {
 		case "add":
 			var c metric.Int64Counter = retained
 			if o.B {
-				name := fmt.Sprintf("fresh%d", i)
-				if o.S {
-					name = "retained"
+				name, v := fmt.Sprintf("fresh%d", i), i%8
+				if i%5 == 0 {
+					name = ""
 				}
-				c, _ = mp.Meter(name).Int64Counter("c")
+				if o.S {
+					name, v = "retained", rv
+				}
+				c, _ = mp.Meter(name, meterOpts(v)...).Int64Counter("c")
 			}
 			_, isNoop := c.(metricnoop.Int64Counter)
 			ob.Flag = !isNoop
@@ -429,7 +441,8 @@ func childLog(sc scenario) resultJ {
 		opts = append(opts, sdklog.WithProcessor(&countLogProc{i, inner, rec}))
 	}
 	lp := sdklog.NewLoggerProvider(opts...)
-	retained := lp.Logger("retained")
+	rv := len(sc.Ops) % 8
+	retained := lp.Logger("retained", loggerOpts(rv)...)
 	var res resultJ
 	rec.take()
 	for i, o := range sc.Ops {
@@ -439,11 +452,14 @@ func childLog(sc scenario) resultJ {
 		case "emit":
 			l := retained
 			if o.B {
-				name := fmt.Sprintf("fresh%d", i)
-				if o.S {
-					name = "retained"
+				name, v := fmt.Sprintf("fresh%d", i), i%8
+				if i%5 == 0 {
+					name = ""
 				}
-				l = lp.Logger(name)
+				if o.S {
+					name, v = "retained", rv
+				}
+				l = lp.Logger(name, loggerOpts(v)...)
 			}
 			_, isNoop := l.(lognoop.Logger)
 			ob.Flag = !isNoop
@@ -693,7 +709,12 @@ func childLMStorm(sc scenario, log bool) resultJ {
 			}
 		}(g)
 	}
-	for rn := 0; rn < sc.N; rn++ {
+	// The spinning callers crawl on an oversubscribed machine: after the first 20 rounds the child stops when
+	// its time budget is used up and reports how many rounds it ran.
+	deadline := time.Now().Add(time.Duration(sc.BudgetMs) * time.Millisecond)
+	roundsDone := 0
+	for rn := 0; rn < sc.N && (rn < 20 || sc.BudgetMs == 0 || time.Now().Before(deadline)); rn++ {
+		roundsDone++
 		rec := &recorder{}
 		out := &syncBuf{}
 		G := r.Range(2, sc.G)
@@ -762,6 +783,7 @@ func childLMStorm(sc scenario, log bool) resultJ {
 	stop.Store(true)
 	wg.Wait()
 	var res resultJ
+	res.RoundsDone = roundsDone
 	for _, k := range order {
 		res.Rounds = append(res.Rounds, *merged[k])
 	}
@@ -794,6 +816,20 @@ func childMain() {
 			res = childLMStorm(sc, true)
 		case "mstorm":
 			res = childLMStorm(sc, false)
+		case "direct":
+			res = childDirect(sc, false)
+		case "directlog":
+			res = childDirect(sc, true)
+		case "dstorm":
+			res = childDStorm(sc)
+		case "reader":
+			res = childReader(sc)
+		case "rstorm":
+			res = childRStorm(sc)
+		case "fail":
+			res = childFail(sc)
+		case "topt":
+			res = childTraceOpt(sc)
 		}
 	}()
 	b, _ := json.Marshal(res)
@@ -808,6 +844,11 @@ type outcome struct {
 	hung    bool
 	log     string
 }
+
+var (
+	kindTimeMu sync.Mutex
+	kindTime   = map[string]time.Duration{}
+)
 
 func runChild(sc scenario) outcome { return runChildT(sc, 90*time.Second) }
 
@@ -1027,7 +1068,7 @@ func genTrace(r *vgen.Rand) scenario {
 
 func genMetric(r *vgen.Rand) scenario {
 	sc := scenario{Kind: "metric"}
-	n := r.Range(1, 3)
+	n := r.Range(0, 3) // 0: a provider without readers
 	for i := 0; i < n; i++ {
 		k := vgen.Pick(r, []string{"RManual", "RPeriodic XStd", "RPeriodic XStd"})
 		sc.Kinds = append(sc.Kinds, k)
@@ -1042,7 +1083,7 @@ func genMetric(r *vgen.Rand) scenario {
 			o = opJ{K: "shutdown", B: !r.Chance(1, 5)}
 		case x < 4:
 			o = opJ{K: "add", B: r.Bool(), S: r.Bool()}
-		case x < 6:
+		case x < 6 && n > 0:
 			o = opJ{K: "collect", P: r.Intn(n)}
 		case x < 9:
 			o = opJ{K: "flush", B: !r.Chance(1, 5)}
@@ -1056,7 +1097,7 @@ func genMetric(r *vgen.Rand) scenario {
 
 func genLog(r *vgen.Rand) scenario {
 	sc := scenario{Kind: "log"}
-	n := r.Range(1, 3)
+	n := r.Range(0, 3) // 0: a provider without processors
 	for i := 0; i < n; i++ {
 		sc.Kinds = append(sc.Kinds, vgen.Pick(r, []string{"LSimple XStd", "LSimple XNil", "LBatch XStd", "LBatch XNil"}))
 	}
@@ -1142,18 +1183,54 @@ func main() {
 
 	logKinds := []string{"LSimple XStd", "LSimple XNil", "LBatch XStd", "LBatch XNil"}
 	for i := 0; i < o.Count(10, 60); i++ {
-		sc := scenario{Kind: "lstorm", N: o.Count(400, 2000), G: r.Range(3, 8), Seed: r.U64()}
+		sc := scenario{Kind: "lstorm", N: o.Count(400, 2000), G: r.Range(3, 8), Seed: r.U64(), BudgetMs: o.Count(4000, 20000)}
 		for j := 0; j < r.Range(1, 3); j++ {
 			sc.Kinds = append(sc.Kinds, vgen.Pick(r, logKinds))
 		}
 		scs = append(scs, sc)
 	}
 	for i := 0; i < o.Count(10, 60); i++ {
-		sc := scenario{Kind: "mstorm", N: o.Count(400, 2000), G: r.Range(3, 8), Seed: r.U64()}
+		sc := scenario{Kind: "mstorm", N: o.Count(400, 2000), G: r.Range(3, 8), Seed: r.U64(), BudgetMs: o.Count(4000, 20000)}
 		for j := 0; j < r.Range(1, 3); j++ {
 			sc.Kinds = append(sc.Kinds, vgen.Pick(r, []string{"RManual", "RPeriodic XStd", "RPeriodic XStd", "RPeriodic XNil"}))
 		}
 		scs = append(scs, sc)
+	}
+
+	// coverage-audit additions: components used directly, readers on 0/1/2 providers, failing processors,
+	// provider option spellings, concurrent direct callers
+	scs = append(scs,
+		scenario{Kind: "direct", Kinds: []string{"PBatch XStd"}, Ops: []opJ{{K: "onend"}, {K: "flush"}, {K: "onend"}, {K: "shutdown"}, {K: "shutdown"}, {K: "onend"}, {K: "flush"}}},
+		scenario{Kind: "direct", Kinds: []string{"PSimple XStd"}, Ops: []opJ{{K: "onend"}, {K: "shutdown"}, {K: "shutdown"}, {K: "onend"}, {K: "flush"}}},
+		scenario{Kind: "directlog", Kinds: []string{"LBatch XStd"}, Ops: []opJ{{K: "onend"}, {K: "flush"}, {K: "onend"}, {K: "shutdown"}, {K: "shutdown"}, {K: "onend"}, {K: "flush"}}},
+		scenario{Kind: "reader", Kinds: []string{"RPeriodic XStd"}, Reg: 2, Ops: []opJ{{K: "rcollect"}, {K: "pshutdown", B: true}, {K: "pshutdown"}, {K: "rshutdown"}, {K: "rcollect"}, {K: "rflush"}}},
+		scenario{Kind: "reader", Kinds: []string{"RManual"}, Reg: 1, Ops: []opJ{{K: "rshutdown"}, {K: "pshutdown"}, {K: "pshutdown"}, {K: "rcollect"}}},
+		scenario{Kind: "reader", Kinds: []string{"RPeriodic XStd"}, Reg: 0, Ops: []opJ{{K: "rcollect"}, {K: "rflush"}, {K: "rshutdown"}, {K: "rshutdown"}, {K: "rcollect"}}},
+		scenario{Kind: "fail", Kinds: []string{"PCount", "PCount", "PCount"}, Fails: []int{1}, Members: []int{0, 1, 2}, Ops: []opJ{{K: "flush"}, {K: "shutdown"}, {K: "shutdown"}}},
+		scenario{Kind: "fail", Kinds: []string{"PCount", "PCount", "PCount"}, Fails: []int{0, 2}, Members: []int{0, 1, 2}, Ops: []opJ{{K: "unreg", P: 0}, {K: "flush"}, {K: "shutdown"}}},
+	)
+	for i := 0; i < o.Count(70, 900); i++ {
+		scs = append(scs, genDirect(r, false))
+	}
+	for i := 0; i < o.Count(50, 700); i++ {
+		scs = append(scs, genDirect(r, true))
+	}
+	for i := 0; i < o.Count(90, 1200); i++ {
+		scs = append(scs, genReader(r))
+	}
+	for i := 0; i < o.Count(50, 700); i++ {
+		scs = append(scs, genFail(r))
+	}
+	for i := 0; i < o.Count(70, 900); i++ {
+		scs = append(scs, genTraceOpt(r))
+	}
+	for i := 0; i < o.Count(12, 60); i++ {
+		k := vgen.Pick(r, append(append([]string{}, traceKinds[1:]...), logKinds...))
+		scs = append(scs, scenario{Kind: "dstorm", Kinds: []string{k}, N: o.Count(150, 1000), G: r.Range(2, 6), Seed: r.U64()})
+	}
+	for i := 0; i < o.Count(8, 40); i++ {
+		k := vgen.Pick(r, []string{"RManual", "RPeriodic XStd", "RPeriodic XStd", "RPeriodic XNil"})
+		scs = append(scs, scenario{Kind: "rstorm", Kinds: []string{k}, Reg: r.Range(1, 2), N: o.Count(150, 1000), G: r.Range(3, 6), Seed: r.U64()})
 	}
 
 	// run the children, a few at a time
@@ -1170,7 +1247,11 @@ func main() {
 			go func(i int) {
 				defer wg.Done()
 				defer func() { <-sem }()
+				t0 := time.Now()
 				outs[i] = runChild(scs[i])
+				kindTimeMu.Lock()
+				kindTime[scs[i].Kind] += time.Since(t0)
+				kindTimeMu.Unlock()
 			}(i)
 		}
 		wg.Wait()
@@ -1216,9 +1297,15 @@ func main() {
 		}
 		dropped[i] = why
 	}
+	kt := map[string]string{}
+	for k, d := range kindTime {
+		kt[k] = d.Round(time.Millisecond).String()
+	}
+	w.Extra["child_time_by_kind"] = kt
 	w.Extra["inconclusive"] = len(dropped)
 	w.Extra["retried_runs"] = retried
 
+	stormRounds, stormPlanned := 0, 0
 	for i, sc := range scs {
 		oc := outs[i]
 		kind := sc.Kind
@@ -1246,6 +1333,18 @@ func main() {
 			w.Violation("child process running the sequence crashed or panicked", desc)
 			continue
 		}
+		if sc.Kind == "dstorm" || sc.Kind == "rstorm" {
+			total := 0
+			for _, rd := range oc.res.Rounds {
+				total += rd.Count
+				d := map[string]any{"scenario": sc, "round_outcome": rd, "rounds_with_this_outcome": rd.Count}
+				w.Add(dstormCoq(sc, rd), d, kind, true)
+			}
+			if total != sc.N {
+				w.Violation("storm child returned an incomplete set of rounds", desc)
+			}
+			continue
+		}
 		if sc.Kind == "lstorm" || sc.Kind == "mstorm" {
 			total := 0
 			for _, rd := range oc.res.Rounds {
@@ -1253,9 +1352,11 @@ func main() {
 				d := map[string]any{"scenario": sc, "round_outcome": rd, "rounds_with_this_outcome": rd.Count}
 				w.Add(stormCoq(sc, rd), d, kind, true)
 			}
-			if total != sc.N {
+			if total != oc.res.RoundsDone || total < min(20, sc.N) {
 				w.Violation("storm child returned an incomplete set of rounds", desc)
 			}
+			stormRounds += total
+			stormPlanned += sc.N
 			w.Tally(fmt.Sprintf("%s:rounds", sc.Kind))
 			continue
 		}
@@ -1264,8 +1365,19 @@ func main() {
 			continue
 		}
 		desc["observed"] = oc.res
+		switch sc.Kind {
+		case "direct", "directlog", "reader", "fail", "topt":
+			for _, op := range sc.Ops {
+				if strings.HasSuffix(op.K, "shutdown") {
+					nontriv = true
+				}
+			}
+			w.Add(directCoq(sc, &oc.res), desc, kind, nontriv)
+			continue
+		}
 		w.Add(scenarioCoq(sc, &oc.res), desc, kind, nontriv)
 	}
+	w.Extra["log_metric_storm_rounds"] = fmt.Sprintf("%d of %d planned (a child stops at its time budget on a loaded machine)", stormRounds, stormPlanned)
 	if err := w.Flush(); err != nil {
 		fmt.Fprintln(os.Stderr, err)
 		os.Exit(2)
